@@ -723,3 +723,35 @@ Theorem chunked_equals_flat fuel (r : pstate P) (s : list (list Z)) :
   read_many P FS ftake fuel r (concat s) = (ps, evs, fi, rf, concat sf).
 Proof. apply sim_read_many. Qed.
 End Lists.
+
+(* ---- non-vacuity: identity primitives satisfy the laws --------------------------- *)
+Definition idP : prims :=
+  {| cst := unit; c_enc := fun s x => (x, s); c_dec := fun s x => (x, s);
+     mkey := unit; hmac := fun _ _ => repeat 0 20%nat;
+     akey := unit; a_enc := fun _ _ p _ => p ++ repeat 0 16%nat;
+     a_dec := fun _ _ c _ => Some (firstn (length c - 16) c);
+     zst := unit; z_comp := fun z x => (x, z); z_decomp := fun z x => Ok (x, z) |}.
+
+Lemma idP_ok : prims_ok idP (fun _ _ _ => True) (fun _ _ => True).
+Proof.
+  constructor; cbn; intros; auto.
+  - f_equal. rewrite app_length. cbn [length]. rewrite Nat.add_sub. now apply firstn_app_exact.
+  - rewrite zlen_app. unfold zlen. cbn [length]. lia.
+  - destruct zd. eauto.
+Qed.
+
+Definition id_state (m : mode idP) (bs msz : Z) : pstate idP :=
+  {| p_mode := m; p_bs := bs; p_msz := msz; p_seq := 2 ^ 32 - 1; p_kex := true;
+     p_sdctr := false; p_z := Some tt |}.
+
+Lemma id_examples :
+  sync (fun _ _ _ => True) (fun _ _ => True) (id_state (@Etm idP tt tt) 16 8) (id_state (@Etm idP tt tt) 16 8) /\
+  sync (fun _ _ _ => True) (fun _ _ => True) (id_state (@Aead idP tt [0;0;0;1;0;0;0;0;0;0;0;9]) 16 16)
+       (id_state (@Aead idP tt [0;0;0;1;0;0;0;0;0;0;0;9]) 16 16) /\
+  exists w s', send_message idP (id_state (@Classic idP tt tt) 8 8) [5; 1; 2; 3] [] = Ok (w, s').
+Proof.
+  split; [|split].
+  - unfold sync. cbn. repeat split; try lia; auto.
+  - unfold sync. cbn. repeat split; try lia; auto.
+  - eexists. eexists. vm_compute. reflexivity.
+Qed.
